@@ -192,6 +192,7 @@ type DiskStore struct {
 	closed bool
 }
 
+var errNilArg = errors.New("simdisk: key or value is nil")
 var errClosed = errors.New("simdisk: database closed")
 var errGone = errors.New("simdisk: database dropped")
 
@@ -239,6 +240,9 @@ func (s *DiskStore) Put(key, value []byte) error {
 	}
 	if s.d.injected() {
 		return ErrInjected
+	}
+	if value == nil || key == nil {
+		return errNilArg // as flushable/memorydb do: a wrapper that turns an empty value into nil must not go unnoticed
 	}
 	s.d.record(LogEntry{Kind: LPut, DB: s.name, KVs: []KV{{append([]byte{}, key...), append([]byte{}, value...)}}})
 	return nil
@@ -401,6 +405,9 @@ type diskBatch struct {
 func (s *DiskStore) NewBatch() kvdb.Batch { return &diskBatch{s: s} }
 
 func (b *diskBatch) Put(key, value []byte) error {
+	if value == nil || key == nil {
+		return errNilArg
+	}
 	b.kvs = append(b.kvs, KV{append([]byte{}, key...), append([]byte{}, value...)})
 	b.size += len(key) + len(value)
 	return nil
